@@ -306,11 +306,127 @@ pub fn run_c15(cfg: &Config) -> i32 {
 	});
 	total.merge(rep);
 
+	// many duplicates of one key (beyond any small-size fast path) whose values are nested objects in permuted order
+	let rep = parallel(cfg.threads, 16, |i| {
+		let mut rep = Report::new();
+		let mut rng = Rng::new(seed).fork(0xc15d + i as u64);
+		for n in [2usize, 8, 15, 16, 17, 31, 32, 33, 34, 40, 64, 65, 100, 130] {
+			let nested = |rng: &mut Rng, flip: bool| -> Vec<RVal> {
+				let mut v = Vec::new();
+				for t in 0..3 {
+					let mut e = vec![("a".to_string(), RVal::Num("1".into())), ("b".to_string(), RVal::Num((2 + t).to_string())), ("c".to_string(), RVal::Arr(vec![RVal::Obj(vec![("x".into(), RVal::Null), ("y".into(), RVal::Bool(true))])]))];
+					if flip && rng.chance(2, 3) {
+						rng.shuffle(&mut e);
+						if let RVal::Arr(a) = &mut e.iter_mut().find(|x| x.0 == "c").unwrap().1 {
+							if let RVal::Obj(o) = &mut a[0] {
+								o.reverse()
+							}
+						}
+					}
+					v.push(RVal::Obj(e));
+				}
+				v
+			};
+			let fill = |vals: Vec<RVal>, n: usize| -> Vec<(String, RVal)> {
+				let mut e: Vec<(String, RVal)> = vals.into_iter().map(|v| ("k".to_string(), v)).collect();
+				let mut j = 0;
+				while e.len() < n {
+					e.push(("k".to_string(), RVal::Num((j % 5).to_string())));
+					j += 1;
+				}
+				e
+			};
+			let ea = fill(nested(&mut rng, false), n.max(3));
+			let mut eb = fill(nested(&mut rng, true), n.max(3));
+			rng.shuffle(&mut eb);
+			let mut ec = eb.clone();
+			// a third operand with one multiplicity changed
+			let last = ec.len() - 1;
+			ec[last].1 = ec[0].1.clone();
+			let (a, b, c) = (RVal::Obj(ea), RVal::Obj(eb), RVal::Obj(ec));
+			for (x, y) in [(&a, &b), (&b, &a), (&a, &c), (&c, &b)] {
+				let want = nf(x) == nf(y);
+				c15_pair(&mut rep, "many-duplicates-of-one-key", x, y, &from_rval(x), &from_rval_push(y), want, true);
+				rep.distinct_by_construction(1);
+			}
+			// the same, nested inside another document
+			let wa = RVal::Arr(vec![RVal::Obj(vec![("outer".into(), a.clone()), ("z".into(), RVal::Null)])]);
+			let wb = RVal::Arr(vec![RVal::Obj(vec![("z".into(), RVal::Null), ("outer".into(), b.clone())])]);
+			c15_pair(&mut rep, "many-duplicates-of-one-key", &wa, &wb, &from_rval(&wa), &from_rval(&wb), nf(&wa) == nf(&wb), true);
+			rep.max("most_duplicates_of_one_key", n as u64);
+		}
+		rep
+	});
+	total.merge(rep);
+
+	// operands that went through object operations (sort applied 0-3 times at every level, rebuilds,
+	// removals and re-insertions) against freshly built permutations of the same content
+	let n = cfg.budget(30_000, 2_000_000);
+	let rep = parallel(cfg.threads, 64, |i| {
+		fn churn(rng: &mut Rng, v: &mut Value) {
+			match v {
+				Value::Array(a) => {
+					for x in a.iter_mut() {
+						churn(rng, x)
+					}
+				}
+				Value::Object(o) => {
+					for (_, x) in o.iter_mut() {
+						churn(rng, x)
+					}
+					for _ in 0..rng.below(4) {
+						match rng.below(4) {
+							0 | 1 => o.sort(),
+							2 => {
+								// remove an entry and push it back (changes the order, not the content)
+								if !o.is_empty() {
+									let i = rng.below(o.len());
+									if let Some(e) = o.remove_at(i) {
+										if rng.chance(1, 2) {
+											o.push_entry(e);
+										} else {
+											o.push_entry_front(e);
+										}
+									}
+								}
+							}
+							_ => {
+								let c = o.clone();
+								*o = c;
+							}
+						}
+					}
+				}
+				_ => (),
+			}
+		}
+		let mut rep = Report::new();
+		let mut rng = Rng::new(seed).fork(0xc15e + i as u64);
+		for _ in 0..(n / 64).max(1) {
+			let p = ValueParams {
+				max_depth: 1 + rng.below(4),
+				max_width: 1 + rng.below(6),
+				..Default::default()
+			};
+			let ra = gen::gen_value(&mut rng, &p, 0);
+			let mut a = from_rval(&ra);
+			churn(&mut rng, &mut a);
+			let ra2 = to_rval(&a);
+			let rb = if rng.chance(2, 3) { shuffle_deep(&mut rng, &ra) } else { mutate_once(&mut rng, &ra) };
+			let b = from_rval(&rb);
+			let want = nf(&ra2) == nf(&rb);
+			rep.distinct_hash(fnv(format!("{}|{}", doc_of(&ra2), doc_of(&rb)).as_bytes()));
+			c15_pair(&mut rep, "operands-through-object-operations", &ra2, &rb, &a, &b, want, true);
+		}
+		rep
+	});
+	total.merge(rep);
+
 	conclude(
 		cfg,
 		EvidenceMeta {
 			id: "C15",
-			rule: "a case is an ordered pair of values; expected verdict = equality of recursively sorted normal forms; exhaustive: every ordered pair of the objects with at most 3 entries over keys {k,l} and 8 values (scalars, objects with duplicate keys in both orders, arrays of different lengths, objects nested under arrays in both member orders); thorough adds sampled pairs of objects with at most 4 entries over 12 values; random: generated values against deep shuffles of themselves and against single mutations (leaf, key, multiplicity, array length/order), shuffled or not; checked through UnorderedPartialEq::unordered_eq in both argument orders, Unordered(a)==Unordered(b), as_unordered(), on Value and on Object; distinct by construction / hash",
+			rule: "a case is an ordered pair of values; expected verdict = equality of recursively sorted normal forms; exhaustive: every ordered pair of the objects with at most 3 entries over keys {k,l} and 8 values (scalars, objects with duplicate keys in both orders, arrays of different lengths, objects nested under arrays in both member orders); thorough adds sampled pairs of objects with at most 4 entries over 12 values; random: generated values against deep shuffles of themselves and against single mutations (leaf, key, multiplicity, array length/order), shuffled or not; objects with 2..130 entries under one key whose values are nested objects in permuted member order; operands that first went through object operations (sort 0-3 times at every level, remove + re-push, clone) against fresh permutations; checked through UnorderedPartialEq::unordered_eq in both argument orders, Unordered(a)==Unordered(b), as_unordered(), on Value and on Object; distinct by construction / hash",
 			exhaustive: false,
 			assumptions: vec!["normal form: object entries sorted by (key, normal form of value), arrays in order, scalars by spelling".into()],
 			extra: json!({}),
@@ -392,7 +508,7 @@ fn c14_pair(rep: &mut Report, fam: &str, a: &Value, b: &Value, content_equal: bo
 /// Builds an object with exactly the entries `e` through history number `how`.
 fn build_via(how: usize, e: &[(String, Value)], rng: &mut Rng) -> Object {
 	let entry = |k: &str, v: &Value| Entry::new(k.into(), v.clone());
-	match how % 8 {
+	match how % 10 {
 		0 => Object::from_vec(e.iter().map(|(k, v)| entry(k, v)).collect()),
 		1 => {
 			let mut o = Object::new();
@@ -456,6 +572,26 @@ fn build_via(how: usize, e: &[(String, Value)], rng: &mut Rng) -> Object {
 				} else {
 					i += 1
 				}
+			}
+			o
+		}
+		8 => {
+			// keys with the same text but a different storage: heap-allocated although short
+			let mut o = Object::new();
+			for (k, v) in e {
+				let mut s = String::with_capacity(64 + k.len());
+				s.push_str(k);
+				o.push(json_syntax::object::Key::from(s), v.clone());
+			}
+			o
+		}
+		9 => {
+			// keys obtained by truncating a longer (spilled) key
+			let mut o = Object::new();
+			for (k, v) in e {
+				let mut long: json_syntax::object::Key = format!("{}{}", k, "-padding-that-forces-the-heap").as_str().into();
+				long.truncate(k.len());
+				o.push(long, v.clone());
 			}
 			o
 		}
@@ -647,7 +783,7 @@ pub fn run_c14(cfg: &Config) -> i32 {
 					(format!("k{}", rng.below(universe.max(1) * wide)), Value::Number((j as u64 % 3).into()))
 				})
 				.collect();
-			let built: Vec<Object> = (0..8).map(|h| build_via(h, &entries, &mut rng)).collect();
+			let built: Vec<Object> = (0..10).map(|h| build_via(h, &entries, &mut rng)).collect();
 			let dumps: Vec<_> = built.iter().map(|o| o.verif_index_dump()).collect();
 			let want: Vec<(String, Value)> = entries.clone();
 			for (h, o) in built.iter().enumerate() {
@@ -680,8 +816,63 @@ pub fn run_c14(cfg: &Config) -> i32 {
 			}
 			rep.distinct_hash(fnv(format!("{:?}", entries).as_bytes()));
 			if i == 0 && k == 0 {
-				rep.sample(json!({"family": "histories", "entries": entries.iter().map(|e| json!([e.0, e.1.to_string()])).collect::<Vec<_>>(), "ways": ["from_vec", "push", "grow then remove junk", "push_front reversed", "parse", "clone of grown", "interleaved junk removed by position", "in-place mutation"]}));
+				rep.sample(json!({"family": "histories", "entries": entries.iter().map(|e| json!([e.0, e.1.to_string()])).collect::<Vec<_>>(), "ways": ["from_vec", "push", "grow then remove junk", "push_front reversed", "parse", "clone of grown", "interleaved junk removed by position", "in-place mutation", "short keys stored on the heap", "keys truncated from longer ones"]}));
 			}
+		}
+		rep
+	});
+	total.merge(rep);
+
+	// (e) content-only at every point of a history: after each operation the object must be
+	// indistinguishable (==, cmp, hash) from a freshly built object with the same entries
+	let n_ops = cfg.budget(150_000, 6_000_000);
+	let rep = parallel(cfg.threads, shards, |i| {
+		use crate::oracle::objmodel::{apply, Fresh, Model};
+		let mut rep = Report::new();
+		let mut rng = Rng::new(seed).fork(0xc14e + i as u64);
+		let mut done = 0u64;
+		while done < (n_ops / shards as u64).max(1) {
+			let n_keys = [1usize, 2, 3, 5, 12, 40][rng.below(6)];
+			let universe: Vec<String> = (0..n_keys).map(|k| if k % 4 == 3 { format!("a-key-longer-than-sixteen-bytes-{}", k) } else { format!("k{}", k) }).collect();
+			let len = rng.range(5, 120);
+			let mut obj = Object::new();
+			let mut m = Model::new();
+			let mut fresh = Fresh(0);
+			let mut hist = Vec::new();
+			for _ in 0..len {
+				let shrink = rng.chance(1, 4);
+				let op = super::c06::random_op(&mut rng, &universe, m.entries.len(), shrink);
+				hist.push(op.clone());
+				done += 1;
+				rep.evaluations += 1;
+				rep.count("history_steps_compared_with_a_fresh_object", 1);
+				let r = guard(|| apply(&op, &mut obj, &mut m, &mut fresh));
+				if !matches!(r, Ok(Ok(()))) {
+					break; // operation semantics are C06's business
+				}
+				let twin = Object::from_vec(m.entries.iter().map(|(k, v)| Entry::new(k.as_str().into(), v.clone())).collect());
+				let r = guard(|| {
+					let (a, b) = (&obj, &twin);
+					(a == b, b == a, a.cmp(b), a.partial_cmp(b), hashes(a) == hashes(b), hashes(&Value::Object(a.clone())) == hashes(&Value::Object(b.clone())), a.clone() == *b)
+				});
+				let desc = || json!({"sub": "history-vs-fresh", "ops": hist.iter().map(super::c06::op_json).collect::<Vec<_>>()});
+				match r {
+					Ok((true, true, Ordering::Equal, Some(Ordering::Equal), true, true, true)) => (),
+					Ok(x) => {
+						rep.violation(
+							format!("C14:history-step:{}", super::c06::op_name(&op)),
+							format!("after history {:?} the object and a fresh object with the same entries: (==, reversed ==, cmp, partial_cmp, equal hashes, equal Value hashes, clone ==) = {:?}", hist, x),
+							desc(),
+						);
+						break;
+					}
+					Err(p) => {
+						rep.violation("C14:panic", format!("comparison panicked after {:?}: {}", hist, p), desc());
+						break;
+					}
+				}
+			}
+			rep.distinct_hash(fnv(format!("{:?}", hist.iter().take(30).collect::<Vec<_>>()).as_bytes()));
 		}
 		rep
 	});
@@ -691,7 +882,7 @@ pub fn run_c14(cfg: &Config) -> i32 {
 		cfg,
 		EvidenceMeta {
 			id: "C14",
-			rule: "cases: (a) generated pairs (a value and an identical copy / an unrelated value / a near-copy differing in one leaf, key, position, multiplicity) and clones; (b) every pair and every triple of the objects with at most 2 (thorough 3) entries over keys {a,b,c} x values {0,1,2} (mixed lengths sharing key prefixes); (c) random triples of related values; (d) objects with identical entry lists built through 8 different histories (from_vec, push, grow-then-shrink, push_front, parse, clone of a grown object, interleaved junk removed by position, in-place mutation), all pairs; laws: == iff content equal (decided on the reference trees), == iff cmp Equal iff partial_cmp Some(Equal), symmetric ==, cmp antisymmetric, transitive, equal => equal hashes under two hashers; the hook counts how many history pairs really had different index internals; distinct by hash / construction",
+			rule: "cases: (a) generated pairs (a value and an identical copy / an unrelated value / a near-copy differing in one leaf, key, position, multiplicity) and clones; (b) every pair and every triple of the objects with at most 2 (thorough 3) entries over keys {a,b,c} x values {0,1,2} (mixed lengths sharing key prefixes); (c) random triples of related values; (d) objects with identical entry lists built through 10 different histories (from_vec, push, grow-then-shrink, push_front, parse, clone of a grown object, interleaved junk removed by position, in-place mutation, short keys stored on the heap, keys truncated from longer ones), all pairs; (e) random operation histories (the C06 alphabet) in which after every operation the object is compared (==, cmp, hash, also wrapped in Value) with a fresh object built from the model's entries; laws: == iff content equal (decided on the reference trees), == iff cmp Equal iff partial_cmp Some(Equal), symmetric ==, cmp antisymmetric, transitive, equal => equal hashes under two hashers; the hook counts how many history pairs really had different index internals; distinct by hash / construction",
 			exhaustive: false,
 			assumptions: vec!["content equality = equality of the reference trees (numbers by spelling)".into()],
 			extra: json!({}),
@@ -727,6 +918,23 @@ pub fn replay_case(id: &str, case: &serde_json::Value) -> Option<Vec<String>> {
 				}
 			}
 		}
+		"history-vs-fresh" => {
+			use crate::oracle::objmodel::{apply, Fresh, Model};
+			let ops: Vec<_> = case.get("ops")?.as_array()?.iter().filter_map(super::c06::op_from_json).collect();
+			let mut obj = Object::new();
+			let mut m = Model::new();
+			let mut fresh = Fresh(0);
+			for op in &ops {
+				if !matches!(guard(|| apply(op, &mut obj, &mut m, &mut fresh)), Ok(Ok(()))) {
+					break;
+				}
+				let twin = Object::from_vec(m.entries.iter().map(|(k, v)| Entry::new(k.as_str().into(), v.clone())).collect());
+				if !(obj == twin && obj.cmp(&twin) == Ordering::Equal && hashes(&obj) == hashes(&twin)) {
+					rep.violation("C14:history-step", format!("after {:?} the object differs from a fresh object with the same entries", op), case.clone());
+					break;
+				}
+			}
+		}
 		"histories" => {
 			let entries: Vec<(String, Value)> = case
 				.get("entries")?
@@ -735,9 +943,9 @@ pub fn replay_case(id: &str, case: &serde_json::Value) -> Option<Vec<String>> {
 				.filter_map(|e| Some((e.get(0)?.as_str()?.to_string(), Value::parse_str(e.get(1)?.as_str()?).ok()?.0)))
 				.collect();
 			let mut rng = Rng::new(1);
-			let built: Vec<Object> = (0..8).map(|h| build_via(h, &entries, &mut rng)).collect();
-			for x in 0..8 {
-				for y in (x + 1)..8 {
+			let built: Vec<Object> = (0..10).map(|h| build_via(h, &entries, &mut rng)).collect();
+			for x in 0..10 {
+				for y in (x + 1)..10 {
 					let (a, b) = (&built[x], &built[y]);
 					if !(a == b && a.cmp(b) == Ordering::Equal && hashes(a) == hashes(b)) {
 						rep.violation("C14:history-dependent", format!("histories {} and {} compare differently", x, y), case.clone());
